@@ -53,6 +53,9 @@ func faultApis() map[string]interface{} {
 		"FM":          map[string]int64{"a": 1},
 		"two":         func(a, b int) int { return a + b },
 		"boom":        func() int64 { panic("injected function panics on purpose") },
+		"boomi":       func() int64 { panic(42) },
+		"booms":       func() int64 { panic(struct{ Code int }{7}) },
+		"boome":       func() int64 { panic(fmt.Errorf("an error value as panic argument")) },
 		"Str":         "text",
 		"PLevel":      new(FaultLevel),
 		"PVal":        &FaultVal{F: 2},
@@ -100,6 +103,9 @@ var faultKinds = []faultKind{
 	{name: "bool-arithmetic", num: "true * 2"},
 	{name: "panicking-function", num: "boom()", stmt: "boom()"},
 	{name: "panicking-method", num: "Obj.Boom()", stmt: "Obj.Boom()"},
+	{name: "panicking-function-int-value", num: "boomi()", stmt: "boomi()"},
+	{name: "panicking-function-struct-value", num: "booms()", stmt: "booms()"},
+	{name: "panicking-function-error-value", num: "boome()", stmt: "boome()"},
 	{name: "missing-method", num: "Obj.NoSuch()", stmt: "Obj.NoSuch(1)"},
 	{name: "missing-function", num: "nosuchfn(1)", stmt: "nosuchfn(1)"},
 	{name: "too-few-arguments", num: "two(1)", stmt: "two(1)"},
